@@ -167,6 +167,8 @@ SymmetricTridiagonalSolver<T>::SymmetricTridiagonalSolver(const SymmetricTridiag
     , sub_diagonal_values_(std::make_unique<T[]>(std::max(matrix_dimension_ - 1, 0)))
     , cyclic_corner_element_(other.cyclic_corner_element_)
     , is_cyclic_(other.is_cyclic_)
+    , factorized_(other.factorized_)
+    , gamma_(other.gamma_)
 {
     std::copy(other.main_diagonal_values_.get(), other.main_diagonal_values_.get() + matrix_dimension_,
               main_diagonal_values_.get());
@@ -190,6 +192,8 @@ SymmetricTridiagonalSolver<T>& SymmetricTridiagonalSolver<T>::operator=(const Sy
     }
     cyclic_corner_element_ = other.cyclic_corner_element_;
     is_cyclic_             = other.is_cyclic_;
+    factorized_            = other.factorized_;
+    gamma_                 = other.gamma_;
     std::copy(other.main_diagonal_values_.get(), other.main_diagonal_values_.get() + matrix_dimension_,
               main_diagonal_values_.get());
     std::copy(other.sub_diagonal_values_.get(),
@@ -205,10 +209,14 @@ SymmetricTridiagonalSolver<T>::SymmetricTridiagonalSolver(SymmetricTridiagonalSo
     , sub_diagonal_values_(std::move(other.sub_diagonal_values_))
     , cyclic_corner_element_(other.cyclic_corner_element_)
     , is_cyclic_(other.is_cyclic_)
+    , factorized_(other.factorized_)
+    , gamma_(other.gamma_)
 {
     other.matrix_dimension_      = 0;
     other.cyclic_corner_element_ = 0.0;
     other.is_cyclic_             = true;
+    other.factorized_            = false;
+    other.gamma_                 = 0.0;
 }
 
 // move assignment
@@ -220,9 +228,13 @@ SymmetricTridiagonalSolver<T>& SymmetricTridiagonalSolver<T>::operator=(Symmetri
     sub_diagonal_values_         = std::move(other.sub_diagonal_values_);
     cyclic_corner_element_       = other.cyclic_corner_element_;
     is_cyclic_                   = other.is_cyclic_;
+    factorized_                  = other.factorized_;
+    gamma_                       = other.gamma_;
     other.matrix_dimension_      = 0;
     other.cyclic_corner_element_ = 0.0;
     other.is_cyclic_             = true;
+    other.factorized_            = false;
+    other.gamma_                 = 0.0;
     return *this;
 }
 
